@@ -40,6 +40,18 @@ from ..exceptions import PkgcoreException, PkgcoreUserException
 from ..log import logger
 from . import const as e_const
 
+# verification hook: protocol line trace, off unless PKGCORE_VERIF=1 and
+# PKGCORE_VERIF_TRACE=<file> are set in the environment
+_VERIF_TRACE = os.environ.get("PKGCORE_VERIF") == "1"
+
+
+def _verif_trace(direction, data):
+    path = os.environ.get("PKGCORE_VERIF_TRACE")
+    if path:
+        with open(path, "a") as f:
+            f.write(f"{direction}{data!r}\n")
+
+
 _global_ebp_lock = threading.Lock()
 inactive_ebp_list = []
 active_ebp_list = []
@@ -491,6 +503,8 @@ class EbuildProcessor:
         try:
             if append_newline and string != "\n":
                 string += "\n"
+            if _VERIF_TRACE:
+                _verif_trace(">", string)
             self.ebd_write.write(string)
             if flush:
                 self.ebd_write.flush()
@@ -542,6 +556,8 @@ class EbuildProcessor:
         mydata = []
         while lines > 0:
             mydata.append(self.ebd_read.readline().decode())
+            if _VERIF_TRACE:
+                _verif_trace("<", mydata[-1])
             cmd, _, args_str = mydata[-1].strip().partition(" ")
             if cmd == "SIGINT":
                 chuck_KeyboardInterrupt(self, args_str)
